@@ -92,16 +92,31 @@ OK(what) == [call |-> what, out |-> "ok"]
 Out(what, o) == [call |-> what, out |-> o]
 
 NoTxn == [who |-> "none", tid |-> 0, phase |-> "idle", staged |-> <<>>, target |-> 0]
-CleanCon(s) == [snap |-> s, reg |-> <<>>, work |-> <<>>, newb |-> {}, pval |-> <<>>, ideal |-> <<>>,
-                touched |-> {}, spon |-> FALSE, spidx |-> {}, spnew |-> {}, spfile |-> <<>>, sps |-> <<>>]
-IsClean(c) == c.reg = <<>> /\ DOMAIN c.work = {} /\ c.newb = {} /\ c.pval = <<>> /\ ~c.spon
 Idle == txn.who = "none"
 
 (* ------------------------------ views ----------------------------------- *)
-SerialAt(o, s) == LET r == LoadBefore(hist, o, s + 1) IN IF r.k = "rev" THEN r.serial ELSE 0
-FileC(b, s) == IF <<b, s>> \in DOMAIN files THEN files[<<b, s>>].c ELSE Lost
+\* serial of the revision of o a snapshot at tid s shows (0: the object does not load there)
+WritesO(H, i, o) == \E j \in 1..Len(H[i].recs) : H[i].recs[j].oid = o
+SerialIn(H, o, s) == LET I == {i \in 1..Len(H) : H[i].tid <= s /\ WritesO(H, i, o)}
+                     IN IF I = {} THEN 0
+                        ELSE LET i == CHOOSE i \in I : \A j \in I : j <= i
+                             IN IF DataAt(H, i, o) = Gone THEN 0 ELSE H[i].tid
+FileIn(F, b, s) == IF <<b, s>> \in DOMAIN F THEN F[<<b, s>>].c ELSE Lost
+FileC(b, s) == FileIn(files, b, s)
+\* A connection at the start of a transaction: its snapshot, and - cached here because committed files and
+\* records never change under a snapshot that is in use (Pack waits for c1 to be clean) - per oid the serial
+\* the snapshot shows (ser), the committed bytes (base), P's value and the root's references
+FreshCon(H, F, s) ==
+  [snap |-> s,
+   ser |-> [o \in 0..(NBlob + 1) |-> SerialIn(H, o, s)],
+   base |-> [b \in Blobs |-> LET t == SerialIn(H, b, s) IN IF t = 0 THEN Absent ELSE FileIn(F, b, t)],
+   pbase |-> LoadBefore(H, P, s + 1).d.v[1],
+   rbase |-> LoadBefore(H, 0, s + 1).d.refs,
+   reg |-> <<>>, work |-> <<>>, newb |-> {}, pval |-> <<>>, ideal |-> <<>>,
+   touched |-> {}, spon |-> FALSE, spidx |-> {}, spnew |-> {}, spfile |-> <<>>, sps |-> <<>>]
+IsClean(c) == c.reg = <<>> /\ DOMAIN c.work = {} /\ c.newb = {} /\ c.pval = <<>> /\ ~c.spon
 \* the committed bytes in the connection's snapshot
-CView(c, b) == LET s == SerialAt(b, c.snap) IN IF s = 0 THEN Absent ELSE FileC(b, s)
+CView(c, b) == c.base[b]
 \* what the connection shows, as the code computes it: working copy, else the savepoint file named
 \* after (oid, serial) if there is one (TmpStore.loadBlob looks at the file, not at its index), else committed
 AView(c, b) == IF b \in DOMAIN c.work THEN c.work[b]
@@ -109,11 +124,11 @@ AView(c, b) == IF b \in DOMAIN c.work THEN c.work[b]
                ELSE CView(c, b)
 \* what the application wrote (ghost)
 IView(c, b) == IF b \in DOMAIN c.ideal THEN c.ideal[b] ELSE CView(c, b)
-Viewable(c, b) == b \in c.newb \cup c.spnew \/ SerialAt(b, c.snap) # 0
-RootRefs(c) == LoadBefore(hist, 0, c.snap + 1).d.refs \cup c.newb \cup c.spnew
-PViewOf(c) == IF c.pval # <<>> THEN c.pval[1] ELSE LoadBefore(hist, P, c.snap + 1).d.v[1]
+Viewable(c, b) == b \in c.newb \cup c.spnew \/ c.ser[b] # 0
+RootRefs(c) == c.rbase \cup c.newb \cup c.spnew
+PViewOf(c) == IF c.pval # <<>> THEN c.pval[1] ELSE c.pbase
 \* a connection without changes starts a new transaction (transaction.begin) before its first change
-Touch(c) == IF IsClean(c) THEN [c EXCEPT !.snap = LastTid(hist)] ELSE c
+Touch(c) == IF IsClean(c) /\ c.snap # LastTid(hist) THEN FreshCon(hist, files, LastTid(hist)) ELSE c
 
 (* ------------------------- derived: observations ------------------------ *)
 ObsPoints == {t \in TidsOf(hist) : t >= 2 /\ t >= packed[1]} \cup (IF packed[1] >= 2 THEN {packed[1]} ELSE {})
@@ -150,7 +165,7 @@ DerivedTxn == osnap' = osnap /\ oiter' = oiter /\ oview' = ViewExpr' /\ viol' = 
 Init ==
   /\ hist = <<Txn(1, <<DataRec(0, RootD({}))>>), Txn(2, <<DataRec(0, RootD({P})), DataRec(P, PlainD("v1"))>>)>>
   /\ files = <<>> /\ old = <<>> /\ dirty = {} /\ leak = <<>> /\ clk = 2 /\ packed = <<0, 0>>
-  /\ txn = NoTxn /\ con = CleanCon(2) /\ nextb = 2 /\ aborted = {} /\ res = OK("open")
+  /\ txn = NoTxn /\ con = FreshCon(hist, files, 2) /\ nextb = 2 /\ aborted = {} /\ res = OK("open")
   /\ osnap = SnapExpr /\ oiter = IterExpr /\ oview = ViewExpr /\ viol = ViolExpr
 
 SameStore == UNCHANGED <<hist, files, old, dirty, leak, clk, packed, txn, aborted>>
@@ -238,7 +253,7 @@ Rollback(k) ==
 \* transaction.abort() outside two-phase commit
 AbortTxn ==
   /\ Idle /\ ~IsClean(con)
-  /\ con' = CleanCon(LastTid(hist))
+  /\ con' = FreshCon(hist, files, LastTid(hist))
   /\ res' = OK("abort")
   /\ UNCHANGED nextb /\ SameStore /\ DerivedCon
 
@@ -261,7 +276,7 @@ StoreSeq(c) == IF c.spon THEN SeqOfSet(c.spidx) ELSE Expand(c, c.reg)
 
 StoreOne(c, tid, o, st) ==
   LET isNew == o \in c.newb \cup c.spnew
-      conflict == ~isNew /\ CurTid(hist, o) # SerialAt(o, c.snap)
+      conflict == ~isNew /\ CurTid(hist, o) # c.ser[o]
   IN IF conflict
      THEN \* the working copy was handed over (Blob._uncommitted) before store() raised: nobody owns it now;
           \* a savepoint file stays in the savepoint directory, which is removed with the TmpStore
@@ -305,7 +320,7 @@ Finish ==
   /\ txn.who # "none" /\ txn.phase = "voted"
   /\ hist' = Append(hist, Txn(txn.tid, txn.staged))
   /\ dirty' = {}
-  /\ con' = IF txn.who = "c1" THEN CleanCon(txn.tid) ELSE con
+  /\ con' = IF txn.who = "c1" THEN FreshCon(hist', files, txn.tid) ELSE con
   /\ txn' = NoTxn
   /\ res' = OK("tpc_finish")
   /\ UNCHANGED <<files, old, leak, clk, packed, nextb, aborted>> /\ Derived
@@ -326,7 +341,7 @@ TpcAbort ==
      /\ files' = IF cleans THEN Drop(files, dirty) ELSE files
      /\ dirty' = IF cleans THEN {} ELSE dirty
   /\ aborted' = aborted \cup {txn.tid}
-  /\ con' = IF txn.who = "c1" THEN CleanCon(LastTid(hist)) ELSE con
+  /\ con' = IF txn.who = "c1" THEN FreshCon(hist, files', LastTid(hist)) ELSE con
   /\ txn' = NoTxn
   /\ res' = OK("tpc_abort")
   /\ UNCHANGED <<hist, old, leak, clk, packed, nextb>> /\ Derived
@@ -439,7 +454,7 @@ Pack(T) ==
         /\ old' = IF IsMixin /\ KeepOld /\ done THEN files ELSE <<>>
         /\ packed' = <<IF done /\ T > packed[1] THEN T ELSE packed[1], IF ~IsMixin /\ done THEN T ELSE packed[2]>>
         /\ res' = Out("pack", r.out)
-        /\ con' = [con EXCEPT !.snap = LastTid(r.h)]
+        /\ con' = FreshCon(hist', files', LastTid(r.h))
   /\ UNCHANGED <<dirty, leak, clk, txn, nextb, aborted>> /\ Derived
 
 (* ---------------------------------- next -------------------------------- *)
